@@ -95,6 +95,9 @@ func (t *Tape) Draw(s Stream, n int) int {
 	v := raw % uint32(n)
 	t.NDraws[s]++
 	t.Hash = (t.Hash ^ (uint64(s)<<32 | uint64(v))) * 1099511628211
+	if t.Trace {
+		t.logEv('d', uint64(s), uint64(n), uint64(v))
+	}
 	return int(v)
 }
 
@@ -110,6 +113,42 @@ func (t *Tape) Chance(s Stream, num, den int) bool {
 //go:norace
 func (t *Tape) Event(a, b uint64) {
 	t.Hash = (t.Hash ^ (a*0x100000001b3 + b)) * 1099511628211
+	if t.Trace {
+		t.logEv('e', a, b, 0)
+	}
+}
+
+//go:norace
+func (t *Tape) logEv(k byte, a, b, c uint64) {
+	if len(t.Log) > 64<<20 {
+		return
+	}
+	t.Log = append(t.Log, k, ' ')
+	t.Log = appendInt(t.Log, int64(int32(a)))
+	t.Log = append(t.Log, ' ')
+	t.Log = appendInt(t.Log, int64(int32(b)))
+	t.Log = append(t.Log, ' ')
+	t.Log = appendInt(t.Log, int64(c))
+	t.Log = append(t.Log, '\n')
+}
+
+//go:norace
+func appendInt(b []byte, v int64) []byte {
+	if v < 0 {
+		b = append(b, '-')
+		v = -v
+	}
+	var tmp [24]byte
+	i := len(tmp)
+	for {
+		i--
+		tmp[i] = byte('0' + v%10)
+		v /= 10
+		if v == 0 {
+			break
+		}
+	}
+	return append(b, tmp[i:]...)
 }
 
 // Pregenerate returns the first n raw values of every stream for seed.
